@@ -60,7 +60,8 @@ EXTERNAL = {
 READS = {"category_choice": ["W"]}
 CALLBACKS = {"match_reset_func": ["i", "w", "cluster", "params", "cache"]}
 CALLBACK_TYPE = {"match_reset_func": "Xt → Wt → Nat → P → C → Bool"}
-PARAM_TYPES = {"x": "Xt", "match_tracking": "Art.MT", "epsilon": "α", "X": ("list", "Xt"), "max_iter": "Nat", "verbose": "Bool"}
+PARAM_TYPES = {"x": "Xt", "match_tracking": "Art.MT", "epsilon": "α", "X": ("list", "Xt"), "max_iter": "Nat", "verbose": "Bool",
+               "c_b": "Nat"}
 IGNORED_PARAMS = {"y"}          # accepted for sklearn compatibility, never read by BaseART
 
 
@@ -84,6 +85,18 @@ EXTERNAL_RET = {"category_choice": ("prod", [("opt", "α"), "C"]), "match_criter
 SELF_TY = "Art.Imp.Self Wt P"
 # what each translated method returns (besides the new self)
 METHOD_RET = {"step_fit": "Nat", "step_pred": "Nat", "predict": ("list", "Nat"), "partial_fit": "Unit", "fit": "Unit"}
+
+
+NAMESPACE = "Art.Gen.BaseART"
+PROFILES["BaseART"] = dict(SELF_FIELDS=SELF_FIELDS, SELF_TYPES=SELF_TYPES, SELF_TY=SELF_TY, METHOD_RET=METHOD_RET,
+                           TRANSLATED=TRANSLATED, INLINE=INLINE, PURE_INLINE=set(), NESTED={}, NAMESPACE=NAMESPACE, FILE=BASE)
+PROFILES["SimpleARTMAP"] = dict(
+    SELF_FIELDS={"module_a": ("self_a", "a"), "map": ("self_map", "map")},
+    SELF_TYPES={"module_a": "Art.Imp.Self Wt P", "map": "dict"},
+    SELF_TY="Art.Imp.SMapSelf Wt P",
+    METHOD_RET={"step_fit": "Nat", "step_pred": ("prod", ["Nat", "Nat"]), "predict": ("list", "Nat")},
+    TRANSLATED=["step_fit", "step_pred", "predict"], INLINE=set(), PURE_INLINE={"match_reset_func"},
+    NESTED={"module_a": "BaseART"}, NAMESPACE="Art.Gen.SimpleARTMAP", FILE=SMAP_FILE)
 
 
 def lean_ty(t) -> str:
@@ -117,6 +130,17 @@ def contains_return(stmts) -> bool:
         for n in ast.walk(s):
             if isinstance(n, ast.Return):
                 return True
+    return False
+
+
+def always_returns(stmts) -> bool:
+    if not stmts:
+        return False
+    last = stmts[-1]
+    if isinstance(last, ast.Return):
+        return True
+    if isinstance(last, ast.If):
+        return always_returns(last.body) and always_returns(last.orelse)
     return False
 
 
@@ -325,7 +349,7 @@ def ext(e: ast.AST, env: Env):
             return f"({ex(l, env)} == {ex(r, env)})", "Bool"
         if isinstance(op, ast.NotEq):
             return f"({ex(l, env)} != {ex(r, env)})", "Bool"
-        if isinstance(op, (ast.In, ast.NotIn)) and ext(r, env)[1] == "dict":
+        if isinstance(op, (ast.In, ast.NotIn)) and not isinstance(r, ast.List) and ext(r, env)[1] == "dict":
             t_ = f"(Art.mapGet {ex(r, env)} {arg(l, env)})"
             return (f"{t_}.isSome" if isinstance(op, ast.In) else f"{t_}.isNone"), "Bool"
         if isinstance(op, ast.In) and isinstance(r, ast.List):
@@ -714,8 +738,8 @@ def tr_block(stmts, env: Env, k: K) -> list[str]:
         c = ex(s.test, env)
         if contains_return([s]):
             e1, e2 = env.copy(), env.copy()
-            a = tr_block(s.body + rest, e1, k)
-            b = tr_block(s.orelse + rest, e2, k)
+            a = tr_block(s.body if always_returns(s.body) else s.body + rest, e1, k)
+            b = tr_block(s.orelse if always_returns(s.orelse) else s.orelse + rest, e2, k)
             return [f"if {c} then"] + ind(a) + ["else"] + ind(b)
         before = env.defined()
         d1, d2 = env.copy(), env.copy()
@@ -912,9 +936,10 @@ def call_translated(m: str, call: ast.Call, env: Env, target: str) -> list[str]:
     return lines
 
 
-def translate_method(tree, cls: str, name: str) -> str:
+def translate_method(tree, cls: str, name: str, trees=None) -> str:
     f = find_function(tree, cls, name)
     env = Env(tree, cls)
+    env.trees = trees or {}
     env.fn = name
     env.ret_ty = METHOD_RET[name]
     params = []
@@ -948,22 +973,25 @@ def translate_method(tree, cls: str, name: str) -> str:
 
 
 def generate(repo: Path) -> str:
-    tree = ast.parse((repo / BASE).read_text())
+    trees = {c: ast.parse((repo / PROFILES[c]["FILE"]).read_text()) for c in PROFILES}
     chunks = ["/-",
-              "GENERATED by harness/artv/ctrans.py from artlib/common/BaseART.py — do not edit.",
-              "Regenerated on every run of the checks that name it; `ArtGenProofs/ControlSpec.lean` proves the",
-              "definitions equal to the model's `stepFit`, `stepPred`, `predict`, `partialFit`, `fit` for all arguments.",
+              "GENERATED by harness/artv/ctrans.py from artlib/common/BaseART.py and artlib/supervised/SimpleARTMAP.py — do not edit.",
+              "Regenerated on every run of the checks that name it; `ArtGenProofs/ControlSpec.lean` / `ControlFit.lean` prove the",
+              "definitions equal to the model's `stepFit`, `stepPred`, `predict`, `partialFit`, `fitEpochs`, `smapStep`, … for all arguments.",
               "-/",
               "import ArtModel.Imp",
               "import ArtModel.Search",
+              "import ArtModel.ARTMAP",
               "",
               "set_option linter.unusedVariables false",
-              "",
-              "namespace Art.Gen.BaseART",
               ""]
-    for m in TRANSLATED:
-        chunks.append(translate_method(tree, "BaseART", m))
-    chunks += ["end Art.Gen.BaseART", ""]
+    for cls in ("BaseART", "SimpleARTMAP"):
+        use_profile(cls)
+        chunks += [f"namespace {PROFILES[cls]['NAMESPACE']}", ""]
+        for m in PROFILES[cls]["TRANSLATED"]:
+            chunks.append(translate_method(trees[cls], cls, m, trees))
+        chunks += [f"end {PROFILES[cls]['NAMESPACE']}", ""]
+    use_profile("BaseART")
     return "\n".join(chunks)
 
 
@@ -974,6 +1002,7 @@ def write(repo: Path = None) -> tuple[bool, str]:
         text = generate(repo)
         ok, msg = True, "generated"
     except (Unsupported, SyntaxError, OSError) as e:
+        use_profile("BaseART")
         text = f"/- GENERATION FAILED: {e} -/\nnamespace Art.Gen.BaseART\nend Art.Gen.BaseART\n"
         ok, msg = False, f"control translator failed closed: {e}"
     if not out.exists() or out.read_text() != text:
